@@ -69,6 +69,19 @@ struct Case {
     mant: i32,
     exp10: i8,
     unit: u16,
+    /// non-zero: move the instant to the next UTC-offset transition of `zone` after `secs`,
+    /// plus this many seconds (gaps, repeated hours)
+    #[serde(default)]
+    near: i32,
+}
+
+/// The instant `delta` seconds after the first offset transition of `zone` that follows `secs`
+/// (computed with the harness's own copy of the tz database).
+fn snap_to_transition(secs: i64, zone: &str, delta: i32) -> Option<i64> {
+    let tz = jiff::tz::TimeZone::get(zone).ok()?;
+    let ts = jiff::Timestamp::new(secs, 0).ok()?;
+    let t = tz.following(ts).next()?;
+    Some(t.timestamp().as_second() + delta as i64)
 }
 
 fn case_strategy() -> impl Strategy<Value = Case> {
@@ -81,7 +94,8 @@ fn case_strategy() -> impl Strategy<Value = Case> {
         1 => MAX_SECS - 400_000_000..MAX_SECS - 200_000,
     ];
     let nanos = prop_oneof![Just(0u32), 0u32..1_000_000_000, Just(999_999_999u32), Just(500_000_000u32)];
-    (secs, nanos, idx(), idx(), -99_999i32..100_000, -3i8..7, idx()).prop_map(|(secs, nanos, zone, zone2, mant, exp10, unit)| Case {
+    let near = prop_oneof![3 => Just(0i32), 1 => -7200i32..7200];
+    (secs, nanos, idx(), idx(), -99_999i32..100_000, -3i8..7, idx(), near).prop_map(|(secs, nanos, zone, zone2, mant, exp10, unit, near)| Case {
         secs,
         nanos,
         zone,
@@ -89,6 +103,7 @@ fn case_strategy() -> impl Strategy<Value = Case> {
         mant,
         exp10,
         unit,
+        near,
     })
 }
 
@@ -132,6 +147,12 @@ fn check(c: &Case, st: &mut Stats) -> CheckResult {
             None => return Err(Failure::new("harness", format!("unknown time unit {other}"))),
         },
     };
+    // optionally move the instant next to an offset transition of its zone
+    let snapped = if c.near != 0 { snap_to_transition(c.secs, zone, c.near) } else { None };
+    if snapped.is_some() {
+        st.label("near-offset-transition");
+    }
+    let c = &Case { secs: snapped.unwrap_or(c.secs), ..c.clone() };
     let Some(t_text) = civil_utc(c.secs, c.nanos) else {
         st.excluded("instant-outside-supported-range");
         return Ok(());
@@ -240,6 +261,30 @@ fn check(c: &Case, st: &mut Stats) -> CheckResult {
                     format!("parsing the full-precision rendering {:?} gives an instant {b:e} s away; {desc}", ctx.verif_raw_global("xx_f")),
                 ));
             }
+            // the RFC 9557 rendering (offset and zone name) reads back as the same instant; in a
+            // repeated hour it is the offset that tells the two passes apart (years 1..9999:
+            // the RFC form has no negative years)
+            if c.secs > -62_135_596_800 {
+                let code2 = "let xx_f2 = format_datetime(\"%Y-%m-%dT%H:%M:%S%.9f%:z[%Q]\", xx_t)\nlet xx_b2 = (datetime(xx_f2) - xx_t) / s";
+                let o2 = eval(&mut ctx, code2);
+                if let Some((loc, msg)) = &o2.panic {
+                    return Err(Failure::new(format!("panic:{loc}"), format!("{code2}: panic at {loc}: {msg}; {desc}")));
+                }
+                if !o2.ok() {
+                    return Err(Failure::new(
+                        "format-parse-roundtrip",
+                        format!("the RFC 9557 rendering {:?} of t is not read back: {}; {desc}", ctx.verif_raw_global("xx_f2"), o2.summary()),
+                    ));
+                }
+                let b2 = scalar(&ctx, "xx_b2").ok_or_else(|| Failure::new("harness", "xx_b2 is not a scalar"))?;
+                if b2 != 0.0 {
+                    return Err(Failure::new(
+                        "format-parse-roundtrip",
+                        format!("parsing the RFC 9557 rendering {:?} gives an instant {b2:e} s away; {desc}", ctx.verif_raw_global("xx_f2")),
+                    ));
+                }
+                st.label("rfc9557-roundtrip");
+            }
             st.label("in-range");
             if zone != "UTC" {
                 st.label("non-utc-zone");
@@ -258,7 +303,7 @@ fn check(c: &Case, st: &mut Stats) -> CheckResult {
 fn run(cfg: &Cfg) -> Report {
     let mut rep = Report::new(
         cfg,
-        "proptest instants (second + nanosecond) over the whole supported range -9999..9999 with emphasis on the present (DST transitions, leap days) and on both ends of the range, placed in one of 16 IANA zones (incl. 30/45-minute offsets, LMT-era offsets, date-line changes); durations mantissa x 10^k in 14 time units from ns to centuries, both signs, from sub-nanosecond to far out of range. Oracle: t + d equals the instant computed independently in integer nanoseconds; (t+d)-t = d and (t+d)-d = t within 1 ns + 4 ulp of d in seconds; converting to a second zone leaves the instant (difference exactly 0, identical UTC rendering, which also equals the constructed civil time); `format_datetime(\"%Y-%m-%d %H:%M:%S%.9f %z\")` parsed back gives difference 0; a result clearly beyond the range must be DateTimeOutOfRange/DurationOutOfRange and a result clearly inside must succeed. non-trivial = non-UTC zone, sub-second part, |d| > 1 day, or an out-of-range case; distinct = (t, zone, d)",
+        "proptest instants (second + nanosecond) over the whole supported range -9999..9999 with emphasis on the present (DST transitions, leap days) and on both ends of the range, placed in one of 16 IANA zones (incl. 30/45-minute offsets, LMT-era offsets, date-line changes); durations mantissa x 10^k in 14 time units from ns to centuries, both signs, from sub-nanosecond to far out of range. Oracle: t + d equals the instant computed independently in integer nanoseconds; (t+d)-t = d and (t+d)-d = t within 1 ns + 4 ulp of d in seconds; converting to a second zone leaves the instant (difference exactly 0, identical UTC rendering, which also equals the constructed civil time); `format_datetime(\"%Y-%m-%d %H:%M:%S%.9f %z\")` parsed back gives difference 0, and so does the RFC 9557 rendering with offset and zone name (`%Y-%m-%dT%H:%M:%S%.9f%:z[%Q]`, years 1-9999); a quarter of the instants are moved to within two hours of the next UTC-offset transition of their zone (gaps and repeated hours, found with the harness's own tz database); a result clearly beyond the range must be DateTimeOutOfRange/DurationOutOfRange and a result clearly inside must succeed. non-trivial = non-UTC zone, sub-second part, |d| > 1 day, or an out-of-range case; distinct = (t, zone, d)",
     );
     let cases = cfg.tier.pick(8000u32, 60000u32);
     rep.absorb(run_proptest(
